@@ -693,6 +693,41 @@ class Effects:
                         out.extend(x for x in c if x not in out)
         return out if found else None
 
+    def _local_class(self, name, fi, env, depth=0):
+        """package classes [(module, class)] a local name stands for when EVERY assignment to it is `<obj>.__class__`, `type(<obj>)`, another
+        such local, or functools.partial of one of those (keyword arguments bound, the class still constructs); else []"""
+        if depth > 3 or name in fi.params:
+            return []
+        vals = []
+        for n in ast.walk(fi.node):
+            if isinstance(n, ast.Assign):
+                for t in n.targets:
+                    if isinstance(t, ast.Name) and t.id == name:
+                        vals.append(n.value)
+                    elif any(isinstance(x, ast.Name) and x.id == name for x in ast.walk(t)):
+                        return []
+            elif isinstance(n, (ast.AugAssign, ast.AnnAssign, ast.For, ast.NamedExpr, ast.With)) and any(isinstance(x, ast.Name) and x.id == name and isinstance(x.ctx, ast.Store) for x in ast.walk(n)):
+                if not isinstance(n, ast.Assign):
+                    return []
+        if not vals:
+            return []
+        out = None
+        for v in vals:
+            if isinstance(v, ast.Call) and self.pkg.resolve_expr(fi.module, fi, v.func) == "functools.partial" and v.args:
+                v = v.args[0]
+            if isinstance(v, ast.Attribute) and v.attr == "__class__":
+                c = self._class_of(v.value, fi, env)
+            elif isinstance(v, ast.Call) and isinstance(v.func, ast.Name) and v.func.id == "type" and len(v.args) == 1:
+                c = self._class_of(v.args[0], fi, env)
+            elif isinstance(v, ast.Name) and v.id != name:
+                c = self._local_class(v.id, fi, env, depth + 1)
+            else:
+                c = []
+            if not c:
+                return []
+            out = c if out is None else [x for x in out if x in c] or c
+        return out or []
+
     def _callable_alias(self, fi, name):
         """(dotted callee, bound argument nodes) for a local every assignment of which names one library / package function,
         directly (`f = np.fft.fft`, `a, b = np.sqrt, np.exp`) or through functools.partial (`g = partial(sg.sosfiltfilt, sos)`)"""
@@ -842,6 +877,11 @@ class Effects:
         dotted = None
         if isinstance(f, ast.Attribute) and f.attr == "__class__":
             c = self._class_of(f.value, fi, env)
+            if c:
+                return self._construct(c, args, kws, s, e)
+        if isinstance(f, ast.Name) and f.id in fi.locals:
+            # a local that stands for a class of the package: `cls = self.__class__`, `new = partial(cls, dtype=...)` - calling it constructs
+            c = self._local_class(f.id, fi, env)
             if c:
                 return self._construct(c, args, kws, s, e)
         if isinstance(f, ast.Name) and f.id not in env and f.id in fi.locals:
